@@ -180,8 +180,11 @@ def _mutation_wrapper(
     @wraps(method)
     def wrapped(*args, **kwargs):
         with MutationContext(module, method, attribute):
-            # This handles the case of an `EvolvableWrapper`
-            if attribute not in module.mutation_methods:
+            # Mutations disabled on the module are skipped - unless they were
+            # disabled because an `EvolvableWrapper` re-exports them
+            if attribute not in module.mutation_methods and not getattr(
+                module, "_mutations_forwarded", False
+            ):
                 module.last_mutation_attr = None
                 module.last_mutation = None
                 return
@@ -705,6 +708,7 @@ class EvolvableWrapper(EvolvableModule):
         # Disable mutations in the wrapped module since these are
         # now handled by the wrapper
         module.disable_mutations()
+        module._mutations_forwarded = True
         self._wrapped = module
 
     @property
